@@ -311,12 +311,13 @@ func runFormatConsts(c *Ctx) {
 		}
 		for _, kf := range []struct{ field, maker string }{{"keyOrder", "DefaultKeyCompare"}, {"keyLayer", "DefaultLayer"}} {
 			for _, s := range fxStoresOf(fs, kf.field) {
-				for _, l := range fxHelperLeaves(s.Val, 0) {
-					call, callee := fxCallee(l)
+				for _, l := range fxHelperLeavesEnv(s.Val, 0, nil) {
+					call, callee := fxCallee(l.V)
 					if callee == nil || callee != c.P.MastFunc(kf.maker) {
 						continue
 					}
-					if sameAsMarshal(call.Call.Args[0]) {
+					// inside a followed helper, its parameter is the caller's argument
+					if sameAsMarshal(l.Arg(call.Call.Args[0])) {
 						c.OK(c.P.InstrPos(call), "LoadMast "+kf.maker+" argument", "the tree's marshaler (Mast.marshal after defaulting)", false)
 					} else {
 						c.Violation(fn, c.P.InstrPos(call), kf.maker+" argument", "LoadMast builds "+kf.maker+" over "+ir.Sym(call.Call.Args[0])+", not over the marshaler the tree ends up with (Mast.marshal after defaulting): fallback key order / layers use a different encoding than the tree")
